@@ -76,7 +76,7 @@ Definition nLT s id := cnt (isLT id) (st_log s).
 
 Definition phase_to (t : tpc) : nat :=
   match t with TNone | TSleep | TSkipped => 0 | _ => 1 end.
-Definition fired (t : tpc) : nat := match t with TFired => 1 | _ => 0 end.
+Definition fired (t : tpc) : nat := match t with TRunning | TFired => 1 | _ => 0 end.
 Definition skipped (t : tpc) : nat := match t with TSkipped => 1 | _ => 0 end.
 Definition isEReg (p : epc) : nat := match p with EReg => 1 | _ => 0 end.
 
@@ -372,6 +372,9 @@ Proof.
     + (* TInvoke *)
       inversion Hs; subst; clear Hs.
       eapply inv_update; [exact HI | exact G | reflexivity | other_counts | num_goal].
+    + (* TRunning *)
+      inversion Hs; subst; clear Hs.
+      eapply inv_update; [exact HI | exact G | reflexivity | other_counts | num_goal].
   - (* LPeerAck *)
     destruct (get_emit s id) as [e|] eqn:G; [|discriminate].
     destruct (onwire s id); [|discriminate].
@@ -389,7 +392,7 @@ Proof.
     intros; unf; cnt_norm; simpl; repeat split; lia.
   - (* LReply *)
     destruct (nth_error (st_replies s) k) as [r|] eqn:R; [|discriminate].
-    destruct r as [id a|id a|id a|]; [| | |discriminate].
+    destruct r as [id a|id a|id a|id a|]; [| | | |discriminate].
     + (* RLookup *)
       destruct (get_emit s id) as [e|] eqn:G.
       * destruct (e_intable e) eqn:IT; inversion Hs; subst; clear Hs.
@@ -421,6 +424,10 @@ Proof.
         specialize (H2 id L).
         pose proof (cnt_ge1 (isRI id) _ _ _ R) as Q. simpl in Q. rewrite Nat.eqb_refl in Q.
         specialize (Q eq_refl). unfold nRI in H2. lia.
+    + (* RRunning: the callback returns *)
+      inversion Hs; subst; clear Hs.
+      eapply inv_same; [exact HI | reflexivity |].
+      intros; unf; cnt_norm; simpl in *; repeat split; lia.
   - (* LConnect *)
     destruct (st_conn s); [discriminate|]. destruct (st_bufmu s); [discriminate|].
     inversion Hs; subst; clear Hs. eapply inv_same; [exact HI | reflexivity | counts_same].
@@ -599,6 +606,9 @@ Proof.
     + inversion Hs; subst; clear Hs.
       eapply inv2_timer; [exact HI | reflexivity | exact TG | unfold timers; simpl; rewrite map_upd_nth; reflexivity | ..];
          simpl; try discriminate; auto.
+    + inversion Hs; subst; clear Hs.
+      eapply inv2_timer; [exact HI | reflexivity | exact TG | unfold timers; simpl; rewrite map_upd_nth; reflexivity | ..];
+         simpl; try discriminate; auto.
   - destruct (get_emit s id) as [e|] eqn:G; [|discriminate].
     destruct (onwire s id); [|discriminate].
     destruct (e_psent e) eqn:P; inversion Hs; subst; clear Hs.
@@ -609,7 +619,7 @@ Proof.
     inversion Hs; subst; clear Hs. eapply inv2_same; [exact HI | reflexivity | reflexivity | reflexivity].
   - inversion Hs; subst; clear Hs. eapply inv2_same; [exact HI | reflexivity | reflexivity | reflexivity].
   - destruct (nth_error (st_replies s) k) as [r|] eqn:R; [|discriminate].
-    destruct r as [id a|id a|id a|]; [| | |discriminate].
+    destruct r as [id a|id a|id a|id a|]; [| | | |discriminate].
     + destruct (get_emit s id) as [e|] eqn:G.
       * destruct (e_intable e) eqn:IT; inversion Hs; subst; clear Hs.
         -- eapply inv2_same; [exact HI | reflexivity | | reflexivity].
@@ -622,6 +632,7 @@ Proof.
         -- eapply inv2_same; [exact HI | reflexivity | | reflexivity].
            unfold timers at 1; simpl. now apply timers_put_same_timer with (e := e).
       * inversion Hs; subst; clear Hs. eapply inv2_same; [exact HI | reflexivity | reflexivity | reflexivity].
+    + inversion Hs; subst; clear Hs. eapply inv2_same; [exact HI | reflexivity | reflexivity | reflexivity].
     + inversion Hs; subst; clear Hs. eapply inv2_same; [exact HI | reflexivity | reflexivity | reflexivity].
   - destruct (st_conn s); [discriminate|]. destruct (st_bufmu s) eqn:M; [discriminate|].
     inversion Hs; subst; clear Hs. eapply inv2_same; [exact HI | reflexivity | reflexivity | simpl; now rewrite M].
@@ -691,9 +702,10 @@ Lemma terminal_replies_done s :
 Proof.
   intros T r Hr. apply In_nth_error in Hr as (k & Hk).
   pose proof (terminal_spec s T (LReply k true) (in_internal_reply s k (nth_some_lt _ _ _ Hk))) as N.
-  simpl in N. rewrite Hk in N. destruct r as [id a|id a|id a|]; [| | |reflexivity]; exfalso.
+  simpl in N. rewrite Hk in N. destruct r as [id a|id a|id a|id a|]; [| | | |reflexivity]; exfalso.
   - destruct (get_emit s id) as [e|]; [destruct (e_intable e)|]; discriminate.
   - destruct (get_emit s id) as [e|]; [destruct (e_timedOut e)|]; discriminate.
+  - discriminate.
   - discriminate.
 Qed.
 
@@ -841,6 +853,7 @@ Proof.
     + destruct (c_oldpurge (st_cfg s)); [destruct (purge_old id (st_buf s))|]; inversion Hs; subst; clear Hs;
         (split; [same3 G | first [apply HBk | apply (HBk (set_timer e TUnlock))]]).
     + inversion Hs; subst; clear Hs. split; [same3 G | apply (HBk (set_timer e TInvoke))].
+    + inversion Hs; subst; clear Hs. split; [same3 G | apply (HBk (set_timer e TRunning))].
     + inversion Hs; subst; clear Hs. split; [same3 G | apply (HBk (set_timer e TFired))].
   - (* LPeerAck *)
     destruct (get_emit s id) as [e|] eqn:G; [|discriminate].
@@ -886,7 +899,7 @@ Proof.
     simpl. intros x Hin. apply P4. eapply in_del_nth; eauto.
   - inversion Hs; subst; clear Hs. split; [eapply inv3_same; [exact HI | reflexivity..] | exact HB].
   - destruct (nth_error (st_replies s) k) as [r|] eqn:R; [|discriminate].
-    destruct r as [id a|id a|id a|]; [| | |discriminate].
+    destruct r as [id a|id a|id a|id a|]; [| | | |discriminate].
     + destruct (get_emit s id) as [e|] eqn:G.
       * destruct (e_intable e) eqn:IT; inversion Hs; subst; clear Hs.
         -- split; [same3 G|]. intros i L. simpl in *. rewrite length_upd_nth in L. now apply HB.
@@ -897,6 +910,7 @@ Proof.
         -- split; [eapply inv3_same; [exact HI | reflexivity..] | exact HB].
         -- split; [same3 G|]. intros i L. simpl in *. rewrite length_upd_nth in L. now apply HB.
       * inversion Hs; subst; clear Hs. split; [eapply inv3_same; [exact HI | reflexivity..] | exact HB].
+    + inversion Hs; subst; clear Hs. split; [eapply inv3_same; [exact HI | reflexivity..] | exact HB].
     + inversion Hs; subst; clear Hs. split; [eapply inv3_same; [exact HI | reflexivity..] | exact HB].
   - destruct (st_conn s); [discriminate|]. destruct (st_bufmu s) eqn:M; [discriminate|].
     inversion Hs; subst; clear Hs. split; [eapply inv3_same; [exact HI | reflexivity..] | exact HB].
@@ -964,7 +978,7 @@ Proof.
 Qed.
 
 Definition carried (r : rpc) : option (nat * args) :=
-  match r with RLookup i a | RCall i a | RInvoke i a => Some (i, a) | RDone => None end.
+  match r with RLookup i a | RCall i a | RInvoke i a | RRunning i a => Some (i, a) | RDone => None end.
 
 Definition inv4 (s : state) : Prop :=
   (forall r x, In r (st_replies s) -> carried r = Some x -> In x (st_psent s))
@@ -1000,6 +1014,7 @@ Proof.
     + inversion Hs; subst; clear Hs. eapply inv4_same; [exact HI | reflexivity..].
     + inversion Hs; subst; clear Hs. destruct HI as [Q1 Q2]. split; simpl; [exact Q1|].
       intros i a0 Hin. apply in_app_or in Hin as [Hin|[Hin|[]]]; [now apply Q2 | discriminate].
+    + inversion Hs; subst; clear Hs. eapply inv4_same; [exact HI | reflexivity..].
   - destruct (get_emit s id) as [e|] eqn:G; [|discriminate].
     destruct (onwire s id); [|discriminate].
     destruct (e_psent e) eqn:P; inversion Hs; subst; clear Hs.
@@ -1020,7 +1035,7 @@ Proof.
       - intros r1 x Hr Hc. rewrite C in Hr. apply in_upd_nth in Hr as [->|Hr]; [|eapply Q1; eauto].
         eapply Q1; [exact RIn | now apply D].
       - rewrite B. exact Q2. }
-    destruct r as [id a|id a|id a|]; [| | |discriminate].
+    destruct r as [id a|id a|id a|id a|]; [| | | |discriminate].
     + destruct (get_emit s id) as [e|] eqn:G.
       * destruct (e_intable e) eqn:IT; inversion Hs; subst; clear Hs.
         -- eapply K; [reflexivity | reflexivity | reflexivity |]. destruct dk; simpl; [auto | discriminate].
@@ -1032,9 +1047,11 @@ Proof.
         -- eapply K; [reflexivity | reflexivity | reflexivity | simpl; auto].
       * inversion Hs; subst; clear Hs. eapply K; [reflexivity | reflexivity | reflexivity | simpl; discriminate].
     + inversion Hs; subst; clear Hs. split; simpl.
-      * intros r1 x Hr Hc. apply in_upd_nth in Hr as [->|Hr]; [discriminate | eapply Q1; eauto].
+      * intros r1 x Hr Hc. apply in_upd_nth in Hr as [->|Hr]; [|eapply Q1; eauto].
+        eapply Q1; [exact RIn | exact Hc].
       * intros i a0 Hin. apply in_app_or in Hin as [Hin|[Hin|[]]]; [now apply Q2|].
         inversion Hin; subst. eapply Q1; [exact RIn | reflexivity].
+    + inversion Hs; subst; clear Hs. eapply K; [reflexivity | reflexivity | reflexivity | simpl; discriminate].
   - destruct (st_conn s); [discriminate|]. destruct (st_bufmu s) eqn:M; [discriminate|].
     inversion Hs; subst; clear Hs. eapply inv4_same; [exact HI | reflexivity..].
   - destruct (st_conn s); [|discriminate].
@@ -1060,4 +1077,86 @@ Proof.
   { unfold outcomes in Hin. apply in_map_iff in Hin as ([i o] & E & Hf). simpl in E. subst o.
     apply filter_In in Hf as [Hf Hi]. simpl in Hi. apply Nat.eqb_eq in Hi. now subst. }
   specialize (Q2 id a L). split; [now apply P3 | exact Q2].
+Qed.
+
+(** ** callbacks take time: a callback that is still executing has been counted *)
+
+(** how one action changes the onAck goroutines and the invocation log *)
+Lemma step_replies_log s l s' :
+  step l s = Some s' ->
+  (st_replies s' = st_replies s /\ st_log s' = st_log s)
+  \/ (st_log s' = st_log s /\ exists id a, st_replies s' = st_replies s ++ [RLookup id a])
+  \/ (st_replies s' = st_replies s /\ exists id, st_log s' = st_log s ++ [(id, OTimeout)])
+  \/ (exists k r r', nth_error (st_replies s) k = Some r /\ st_replies s' = upd_nth k r' (st_replies s)
+        /\ ((st_log s' = st_log s /\ forall i a, r' <> RRunning i a)
+            \/ exists i a, r = RInvoke i a /\ r' = RRunning i a /\ st_log s' = st_log s ++ [(i, OReply a)])).
+Proof.
+  intros Hs. destruct l as [tmo natt|natt| |id|id|id a|k|id a|k dk| | ]; simpl in Hs;
+  repeat match type of Hs with
+         | context [match ?x with _ => _ end] => destruct x eqn:?; try discriminate
+         end;
+  inversion Hs; subst; clear Hs;
+  try match goal with H : send_frames _ _ = Some _ |- _ => apply send_frames_core in H as (EA & EB & EC) end;
+  simpl; rewrite ?EB, ?EC;
+  try solve [left; split; reflexivity];
+  try solve [right; left; split; [reflexivity | eauto]];
+  try solve [right; right; left; split; [reflexivity | eauto]].
+  all: right; right; right; do 3 eexists; (split; [eassumption|]); (split; [reflexivity|]);
+    first [ solve [left; split; [reflexivity | intros; discriminate]]
+          | right; do 2 eexists; repeat split; reflexivity ].
+Qed.
+
+Definition inv6 (s : state) : Prop :=
+  forall id a, In (RRunning id a) (st_replies s) -> In (id, OReply a) (st_log s).
+
+Lemma inv6_step s l s' : inv6 s -> step l s = Some s' -> inv6 s'.
+Proof.
+  intros HI Hs id a Hin.
+  destruct (step_replies_log s l s' Hs) as [[A B]|[[B (i & x & A)]|[[A (i & B)]|(k & r & r' & R & A & C)]]];
+    rewrite ?A, ?B in *.
+  - now apply HI.
+  - apply in_app_or in Hin as [Hin|[Hin|[]]]; [now apply HI | discriminate].
+  - apply in_or_app; left. now apply HI.
+  - apply in_upd_nth in Hin as [E|Hin].
+    + destruct C as [[B N]|(i & x & E1 & E2 & B)].
+      * exfalso. eapply N. symmetry. exact E.
+      * rewrite B. rewrite E2 in E. inversion E; subst. apply in_or_app; right. now left.
+    + destruct C as [[B N]|(i & x & E1 & E2 & B)]; rewrite B; [now apply HI|].
+      apply in_or_app; left. now apply HI.
+Qed.
+
+Lemma inv6_reach s : reach s -> inv6 s.
+Proof.
+  apply invariant_reachable. split.
+  - intros s0 (c & conn & ->) id a []. 
+  - intros ? ? ? ? ?; eapply inv6_step; eauto.
+Qed.
+
+Lemma in_outcomes s id o : In (id, o) (st_log s) -> In o (outcomes s id).
+Proof.
+  intros H. unfold outcomes. apply in_map_iff. exists (id, o). split; [reflexivity|].
+  apply filter_In. split; [exact H | simpl; apply Nat.eqb_refl].
+Qed.
+
+(** while the callback of [id] is executing with a reply (however long that takes, whatever
+    else happens meanwhile), this is the only invocation there has been *)
+Lemma running_reply_only s id a :
+  reach s -> In (RRunning id a) (st_replies s) -> outcomes s id = [OReply a].
+Proof.
+  intros R Hin. pose proof (in_outcomes s id _ (inv6_reach s R id a Hin)) as Ho.
+  pose proof (at_most_once s id R) as L.
+  destruct (outcomes s id) as [|o [|o' l]]; simpl in *; try lia; try contradiction.
+  destruct Ho as [->|[]]. reflexivity.
+Qed.
+
+(** ... and the same while the timeout callback is executing *)
+Lemma running_timeout_only s id e :
+  reach s -> get_emit s id = Some e -> e_timer e = TRunning -> outcomes s id = [OTimeout].
+Proof.
+  intros R G T. destruct (inv_reach s R) as [I1 _]. destruct (I1 id e G) as (_ & _ & _ & D & _ & _).
+  rewrite T in D. simpl in D. pose proof (at_most_once s id R) as L.
+  pose proof (outcomes_timeouts s id) as OT. rewrite D in OT.
+  destruct (outcomes s id) as [|o [|o' l]]; simpl in *; try lia.
+  - rewrite cnt_nil in OT. discriminate.
+  - rewrite cnt_cons, cnt_nil in OT. destruct o; simpl in OT; [lia | reflexivity].
 Qed.
